@@ -252,9 +252,22 @@ def r3(ctx):
         if v is not None:
             ok = ok and st.entails_le(1, v)
         else:
-            # my_strlcat(...) + 1
-            r = unwrap(ev.e)
-            ok = ok and r.get('k') == 'bin' and r['op'] == '+' and (cval(unwrap(r['r'])) or 0) >= 1 and callee_of(unwrap(r['l'])) in ('my_strlcat', 'my_strlcpy')
+            # a sum of non-negative terms (the wrappers' results, the write position) and a constant >= 1
+            def terms(e):
+                u = unwrap(e)
+                if u.get('k') == 'bin' and u.get('op') == '+':
+                    return terms(u['l']) + terms(u['r'])
+                return [u]
+            const, fine = 0, True
+            for t_ in terms(ev.e):
+                if cval(t_) is not None:
+                    const += cval(t_)
+                elif callee_of(t_) in ('my_strlcat', 'my_strlcpy'):
+                    continue
+                else:
+                    lv = an.lin(t_, st)
+                    fine = fine and lv is not None and st.entails_le(0, lv)
+            ok = ok and fine and const >= 1
     ctx.check('R3', 'decoder-returns>=1', ok, d, '%s returns at least 1 on every path' % d.name, d.name + ' can return 0: assert(len > 0) in the dump printer aborts on file contents')
     # assertions in the dump path
     n = 0
